@@ -47,6 +47,21 @@ def parens(code: Expression, wrap_me: type | tuple[type, ...]):
     return string
 
 
+# Comparison and logical operators all produce booleans. When one is an operand of a comparison, it
+# needs parentheses because C comparisons are left-associative and bind tighter than && and ||:
+# p == (x == y) must not print as p == x == y, nor (p || q) == r as p || q == r.
+boolean_operators = (
+    Equal,
+    NotEqual,
+    GreaterThan,
+    LessThan,
+    GreaterThanOrEqual,
+    LessThanOrEqual,
+    And,
+    Or,
+)
+
+
 def indent_lines(lines: list[str]) -> list[str]:
     return ["  " + line for line in lines]
 
@@ -105,32 +120,32 @@ def ir_to_c_multiply(self: Multiply) -> str:
 
 @ir_to_c_expression.register(Equal)
 def ir_to_c_equal(self: Equal) -> str:
-    return f"{ir_to_c_expression(self.left)} == {ir_to_c_expression(self.right)}"
+    return f"{parens(self.left, boolean_operators)} == {parens(self.right, boolean_operators)}"
 
 
 @ir_to_c_expression.register(NotEqual)
 def ir_to_c_not_equal(self: NotEqual) -> str:
-    return f"{ir_to_c_expression(self.left)} != {ir_to_c_expression(self.right)}"
+    return f"{parens(self.left, boolean_operators)} != {parens(self.right, boolean_operators)}"
 
 
 @ir_to_c_expression.register(GreaterThan)
 def ir_to_c_greater_than(self: GreaterThan) -> str:
-    return f"{ir_to_c_expression(self.left)} > {ir_to_c_expression(self.right)}"
+    return f"{parens(self.left, boolean_operators)} > {parens(self.right, boolean_operators)}"
 
 
 @ir_to_c_expression.register(LessThan)
 def ir_to_c_less_than(self: LessThan) -> str:
-    return f"{ir_to_c_expression(self.left)} < {ir_to_c_expression(self.right)}"
+    return f"{parens(self.left, boolean_operators)} < {parens(self.right, boolean_operators)}"
 
 
 @ir_to_c_expression.register(GreaterThanOrEqual)
 def ir_to_c_greater_than_or_equal(self: GreaterThanOrEqual) -> str:
-    return f"{ir_to_c_expression(self.left)} >= {ir_to_c_expression(self.right)}"
+    return f"{parens(self.left, boolean_operators)} >= {parens(self.right, boolean_operators)}"
 
 
 @ir_to_c_expression.register(LessThanOrEqual)
 def ir_to_c_less_than_or_equal(self: LessThanOrEqual) -> str:
-    return f"{ir_to_c_expression(self.left)} <= {ir_to_c_expression(self.right)}"
+    return f"{parens(self.left, boolean_operators)} <= {parens(self.right, boolean_operators)}"
 
 
 @ir_to_c_expression.register(And)
